@@ -998,7 +998,7 @@ class Interp:
                 c = self.op(cur, fid, t['cond'])
                 ev = self.event('assert', cur, fid, bi, t.get('span'), val=c, extra={'expected': t['expected'], 'msg': t.get('msg')})
                 if self.refute_panic_edges:
-                    ev.extra['why'] = self.refute(cur, self.truth(cur, c, not bool(t['expected'])))
+                    ev.extra['why'] = self.refute(cur, self.truth(cur, c, not bool(t['expected']))) or self.nonnull_check(c, str(t.get('msg') or ''))
                 fs = self.truth(cur, c, bool(t['expected']))
                 if ('false',) not in fs:
                     cur.facts |= fs
@@ -1160,6 +1160,41 @@ class Interp:
             diverging = any(g.body['blocks'][x]['term']['k'] == 'call' and g.body['blocks'][x]['term']['t'] is None for x in r)
             c[key] = diverging and not (r & set(g.returns()))
         return c[key]
+
+    def nonnull_by_type(self, t, depth=0):
+        """t is non-null by the validity invariant of its type: the address of a place, or a value loaded from a field
+        declared NonNull<_> / Cell<NonNull<_>> / a reference"""
+        if not isinstance(t, tuple) or not t or depth > 4:
+            return False
+        if t[0] == 'addr':
+            return True
+        if t[0] == 'load' and t[1][0] == 'fld':
+            full = t[1][2]
+            adt, _, fname = full.rpartition('.')
+            for a in getattr(self.db, 'adts', []):
+                if a['path'] == adt or a['path'].endswith('::' + adt) or adt.endswith('::' + a['path']):
+                    for f in a.get('fields', []):
+                        if f['name'] == fname:
+                            ty = f['ty'].replace('core::', 'std::')
+                            for wrap in ('std::cell::Cell<',):
+                                if ty.startswith(wrap) and ty.endswith('>'):
+                                    ty = ty[len(wrap):-1]
+                            return ty.startswith('std::ptr::NonNull<') or ty.startswith('&')
+        return False
+
+    def nonnull_check(self, c, msg):
+        """rustc's debug-build null check on a raw-pointer dereference: `!(ptr == 0 && ..)`"""
+        if not msg.startswith('NullPointerDereference'):
+            return None
+        t = c[1] if c[0] == 'not' else (c[2] if c[0] == 'app' and c[1] == 'not' and len(c) == 3 else None)
+        if t is None or not (t[0] == 'app' and t[1] in ('band', 'and')):
+            return None
+        for x in t[2:]:
+            if isinstance(x, tuple) and x and x[0] == 'cmp' and x[1] == 'eq':
+                for a, b in ((x[2], x[3]), (x[3], x[2])):
+                    if is_c(a) and a[1] == 0 and self.nonnull_by_type(b):
+                        return 'non-null by the validity invariant of its type (%s)' % show(b)[:50]
+        return None
 
     def refute(self, st, added):
         """reason why taking an edge that adds `added` is impossible under the facts of st, or None"""
